@@ -5,16 +5,28 @@ From Pygls Require Import Model.Dispatch Spec.DispatchSpec.
 Import ListNotations.
 
 (* ------------------------------------------------------------------ method names *)
-Lemma builtin_name : forall k, mem_name (meth_of k) builtins = is_builtin_call k.
+Lemma known_name : forall k, mem_name (meth_of k) builtins = is_builtin_call k.
 Proof. intro k. destruct k; reflexivity. Qed.
 
-Lemma get_handler_builtin : forall r k, is_builtin_call k = true -> get_handler builtins r (meth_of k) = HBuiltin.
-Proof. intros r k H. apply builtin_always_wins. rewrite builtin_name. exact H. Qed.
+(* the ten built-ins the model knows are built-ins of every protocol class *)
+Lemma isb_known : forall c k, is_builtin_call k = true -> isb c k = true.
+Proof.
+  intros c k H. unfold isb, bset, mem_name. rewrite existsb_app. fold (mem_name (meth_of k) builtins).
+  rewrite known_name, H. reflexivity.
+Qed.
 
-Lemma get_handler_other : forall r q nm v,
-    get_handler builtins r (meth_of (COther q nm v)) =
-    match aget (other_name nm) (features r) with Some e => HUser e | None => HNotFound end.
-Proof. intros. unfold get_handler. rewrite builtin_name. reflexivity. Qed.
+Lemma get_handler_builtin : forall c r k, isb c k = true -> get_handler (bset c) r (meth_of k) = HBuiltin.
+Proof. intros c r k H. apply builtin_always_wins. exact H. Qed.
+
+Lemma get_handler_other : forall c r k, isb c k = false ->
+    get_handler (bset c) r (meth_of k) =
+    match aget (meth_of k) (features r) with Some e => HUser e | None => HNotFound end.
+Proof. intros c r k H. unfold get_handler. unfold isb in H. rewrite H. reflexivity. Qed.
+
+Lemma isb_other_only : forall c k, isb c k = false -> exists q nm v, k = COther q nm v.
+Proof.
+  intros c k H. destruct k; try (match type of H with isb c ?k0 = false => rewrite (isb_known c k0 eq_refl) in H; discriminate end). eauto.
+Qed.
 
 (* ------------------------------------------------------------------ what one delivery places *)
 (* an invocation the code is going to make, with the done-callback of its future *)
@@ -30,11 +42,12 @@ Definition user_plan (c : cfg) (n : nat) (k : call) (args : list arg) : list pin
 Definition plan (c : cfg) (w : wsp) (n : nat) (k : call) : list pinv :=
   match k with
   | COther q nm v =>
-      match aget (other_name nm) (features (c_reg c)) with
-      | Some e => [mkP (mkInv n (other_name nm) PUser e [ACall k])
-                       (match q with Some i => CReq i | None => CNot end)]
-      | None => []
-      end
+      if isb c k then user_plan c n k [ACall k]       (* a built-in the protocol class adds *)
+      else match aget (other_name nm) (features (c_reg c)) with
+           | Some e => [mkP (mkInv n (other_name nm) PUser e [ACall k])
+                            (match q with Some i => CReq i | None => CNot end)]
+           | None => []
+           end
   | CExecCmd i cmd a =>
       match exec_command (c_reg c) (Some cmd) with
       | [] => []
@@ -192,7 +205,7 @@ Definition mid (k : call) (s : st) : st :=
 
 Definition delivery (c : cfg) (k : call) (s s' : st) : Prop :=
   let ps := plan c (ws s) (nmsg s) k in
-  hlog s' = hlog s ++ (if is_builtin_call k then [bent (nmsg s) k (ws s)] else []) ++ now_entries (ws s') ps /\
+  hlog s' = hlog s ++ (if isb c k then [bent (nmsg s) k (ws s)] else []) ++ now_entries (ws s') ps /\
   tasks s' = tasks (mid k s) ++ new_tasks ps /\
   jobs s' = jobs (mid k s) ++ new_jobs ps /\
   ws s' = spec_step c (ws s) k /\
@@ -201,30 +214,6 @@ Definition delivery (c : cfg) (k : call) (s s' : st) : Prop :=
 Ltac fields := unfold log_builtin, add_out, set_nmsg, set_hlog, set_out, set_ws;
                cbn [ws nmsg hlog tasks jobs out futs].
 
-Lemma recv_other : forall c q nm v s, w_shut (ws s) = false ->
-    delivery c (COther q nm v) s (recv c (COther q nm v) s).
-Proof.
-  intros c q nm v s Hs. unfold delivery, recv. rewrite Hs. cbn [req_id is_builtin_call mid app].
-  unfold spec_step, delivered. rewrite Hs. cbn [negb ws_effect plan].
-  destruct q as [i|].
-  - unfold handle_request. rewrite get_handler_other. cbn [meth_of].
-    destruct (aget (other_name nm) (features (c_reg c))) as [e|].
-    + destruct (execute_request_ext c i (mkInv (nmsg s) (other_name nm) PUser e [ACall (COther (Some i) nm v)])
-                                    (set_nmsg (S (nmsg s)) s)) as [(A1 & A2 & A3 & A4 & A5) _].
-      destruct (execute_request c i _ (set_nmsg (S (nmsg s)) s)) as [s1 x]. cbn [fst] in *.
-      assert (E : forall s2, s2 = (if x then add_out (OError i code_internal) s1 else s1) ->
-                             hlog s2 = hlog s1 /\ tasks s2 = tasks s1 /\ jobs s2 = jobs s1 /\ ws s2 = ws s1 /\ nmsg s2 = nmsg s1).
-      { intros s2 ->. destruct x; cbn; auto. }
-      destruct (E _ eq_refl) as (B1 & B2 & B3 & B4 & B5).
-      rewrite B1, B2, B3, B4, B5, A1, A2, A3, A4, A5. cbn [ws nmsg set_nmsg hlog tasks jobs]. auto.
-    + fields. cbn [now_entries new_tasks new_jobs filter map]. rewrite !app_nil_r. auto.
-  - unfold handle_notification. rewrite get_handler_other. cbn [meth_of].
-    destruct (aget (other_name nm) (features (c_reg c))) as [e|].
-    + destruct (exec_notification_ext c (mkInv (nmsg s) (other_name nm) PUser e [ACall (COther None nm v)])
-                                      (set_nmsg (S (nmsg s)) s)) as [(A1 & A2 & A3 & A4 & A5) _].
-      rewrite A1, A2, A3, A4, A5. cbn [ws nmsg set_nmsg hlog tasks jobs]. auto.
-    + fields. cbn [now_entries new_tasks new_jobs filter map]. rewrite !app_nil_r. auto.
-Qed.
 
 Lemma now_entries_cons : forall w p ps, now_entries w (p :: ps) = now_entries w [p] ++ now_entries w ps.
 Proof. intros. unfold now_entries. cbn [filter]. destruct (p_inline p); reflexivity. Qed.
@@ -249,12 +238,51 @@ Qed.
 Lemma ext_id : forall x : st, ext x ((fun y => y) x) [] [] [].
 Proof. intro x. apply ext_refl. Qed.
 
+Lemma recv_other : forall c q nm v s, w_shut (ws s) = false ->
+    delivery c (COther q nm v) s (recv c (COther q nm v) s).
+Proof.
+  intros c q nm v s Hs. unfold delivery, recv. rewrite Hs. cbn [req_id mid].
+  unfold spec_step, delivered. rewrite Hs. cbn [negb ws_effect plan].
+  destruct (isb c (COther q nm v)) eqn:Hb.
+  - (* a built-in the protocol class adds: no effect on the workspace, then the user's feature *)
+    unfold bent. cbn [bargs].
+    destruct q as [i|].
+    + unfold handle_request. rewrite (get_handler_builtin c _ _ Hb). unfold builtin_body. cbv beta iota zeta. cbn [ws_effect].
+      set (k := COther (Some i) nm v) in *. set (n := nmsg s). set (s0 := set_nmsg (S n) s).
+      destruct (plain_tail c n k [ACall k] (log_builtin n k [ACall k] s0) (ws (log_builtin n k [ACall k] s0))
+                           (add_out (OResult i (result_of k))) (fun x => ext_add_out x _)) as (A1 & A2 & A3 & A4 & A5).
+      cbn zeta in *. rewrite A1, A2, A3, A4, A5. fields. rewrite <- app_assoc. auto.
+    + unfold handle_notification. rewrite (get_handler_builtin c _ _ Hb). unfold builtin_body. cbv beta iota zeta. cbn [ws_effect].
+      set (k := COther None nm v) in *. set (n := nmsg s). set (s0 := set_nmsg (S n) s).
+      destruct (plain_tail c n k [ACall k] (log_builtin n k [ACall k] s0) (ws (log_builtin n k [ACall k] s0))
+                           (fun y => y) ext_id) as (A1 & A2 & A3 & A4 & A5).
+      cbn zeta in *. rewrite A1, A2, A3, A4, A5. fields. rewrite <- app_assoc. auto.
+  - cbn [app]. destruct q as [i|].
+    + unfold handle_request. rewrite (get_handler_other c _ _ Hb). cbn [meth_of].
+      destruct (aget (other_name nm) (features (c_reg c))) as [e|].
+      * destruct (execute_request_ext c i (mkInv (nmsg s) (other_name nm) PUser e [ACall (COther (Some i) nm v)])
+                                      (set_nmsg (S (nmsg s)) s)) as [(A1 & A2 & A3 & A4 & A5) _].
+        destruct (execute_request c i _ (set_nmsg (S (nmsg s)) s)) as [s1 x]. cbn [fst] in *.
+        assert (E : forall s2, s2 = (if x then add_out (OError i code_internal) s1 else s1) ->
+                               hlog s2 = hlog s1 /\ tasks s2 = tasks s1 /\ jobs s2 = jobs s1 /\ ws s2 = ws s1 /\ nmsg s2 = nmsg s1).
+        { intros s2 ->. destruct x; cbn; auto. }
+        destruct (E _ eq_refl) as (B1 & B2 & B3 & B4 & B5).
+        rewrite B1, B2, B3, B4, B5, A1, A2, A3, A4, A5. cbn [ws nmsg set_nmsg hlog tasks jobs]. auto.
+      * fields. cbn [now_entries new_tasks new_jobs filter map]. rewrite !app_nil_r. auto.
+    + unfold handle_notification. rewrite (get_handler_other c _ _ Hb). cbn [meth_of].
+      destruct (aget (other_name nm) (features (c_reg c))) as [e|].
+      * destruct (exec_notification_ext c (mkInv (nmsg s) (other_name nm) PUser e [ACall (COther None nm v)])
+                                        (set_nmsg (S (nmsg s)) s)) as [(A1 & A2 & A3 & A4 & A5) _].
+        rewrite A1, A2, A3, A4, A5. cbn [ws nmsg set_nmsg hlog tasks jobs]. auto.
+      * fields. cbn [now_entries new_tasks new_jobs filter map]. rewrite !app_nil_r. auto.
+Qed.
+
 Lemma recv_initialize : forall c i fs s, w_shut (ws s) = false ->
     delivery c (CInitialize i fs) s (recv c (CInitialize i fs) s).
 Proof.
   intros c i fs s Hs. unfold delivery, recv. rewrite Hs.
   unfold spec_step, delivered. rewrite Hs. cbn [negb].
-  cbn [req_id is_builtin_call mid]. unfold handle_request. rewrite (get_handler_builtin _ (CInitialize i fs) eq_refl).
+  cbn [req_id mid]. rewrite (isb_known c (CInitialize i fs) eq_refl). unfold handle_request. rewrite (get_handler_builtin c _ (CInitialize i fs) (isb_known c (CInitialize i fs) eq_refl)).
   unfold builtin_body, plan, bent. cbv beta iota zeta. cbn [bargs].
   set (k := CInitialize i fs). set (n := nmsg s). set (s0 := set_nmsg (S n) s).
   change (ws (log_builtin n k [ACall k] s0)) with (ws s).
@@ -270,7 +298,7 @@ Lemma recv_shutdown : forall c i s, w_shut (ws s) = false ->
 Proof.
   intros c i s Hs. unfold delivery, recv. rewrite Hs.
   unfold spec_step, delivered. rewrite Hs. cbn [negb].
-  cbn [req_id is_builtin_call mid]. unfold handle_request. rewrite (get_handler_builtin _ (CShutdown i) eq_refl).
+  cbn [req_id mid]. rewrite (isb_known c (CShutdown i) eq_refl). unfold handle_request. rewrite (get_handler_builtin c _ (CShutdown i) (isb_known c (CShutdown i) eq_refl)).
   unfold builtin_body, plan, bent. cbv beta iota zeta. cbn [bargs].
   set (k := CShutdown i). set (n := nmsg s). set (s0 := set_nmsg (S n) s).
   destruct (cancel_all_fields (log_builtin n k [ACall k] s0)) as (C1 & C2 & C3).
@@ -283,7 +311,7 @@ Qed.
 
 Ltac solve_notif c s Hs k0 :=
   unfold delivery, recv; rewrite Hs; unfold spec_step, delivered; rewrite Hs; cbn [negb];
-  cbn [req_id is_builtin_call mid]; unfold handle_notification; rewrite (get_handler_builtin _ k0 eq_refl);
+  cbn [req_id mid]; rewrite (isb_known c k0 eq_refl); unfold handle_notification; rewrite (get_handler_builtin c _ k0 (isb_known c k0 eq_refl));
   unfold builtin_body, plan, bent; cbv beta iota zeta; cbn [bargs];
   set (k := k0); set (n := nmsg s); set (s0 := set_nmsg (S n) s);
   change (ws (log_builtin n k [ACall k] s0)) with (ws s);
@@ -310,7 +338,7 @@ Lemma recv_exec : forall c i cmd a s, w_shut (ws s) = false ->
 Proof.
   intros c i cmd a s Hs. unfold delivery, recv. rewrite Hs.
   unfold spec_step, delivered. rewrite Hs. cbn [negb ws_effect].
-  cbn [req_id is_builtin_call mid]. unfold handle_request. rewrite (get_handler_builtin _ (CExecCmd i cmd a) eq_refl).
+  cbn [req_id mid]. rewrite (isb_known c (CExecCmd i cmd a) eq_refl). unfold handle_request. rewrite (get_handler_builtin c _ (CExecCmd i cmd a) (isb_known c (CExecCmd i cmd a) eq_refl)).
   unfold exec_cmd_body, plan, bent. cbv beta iota zeta. cbn [bargs].
   set (k := CExecCmd i cmd a). set (n := nmsg s). set (s0 := set_nmsg (S n) s).
   set (s1 := log_builtin n k [ACall k; AId i] s0).
@@ -356,18 +384,20 @@ Lemma exec_command_shape : forall r n, exec_command r n = [] \/ exists e, exec_c
 Proof. intros r n. unfold exec_command. destruct (aget n (commands r)); eauto. Qed.
 
 Lemma user_plan_spec : forall c n k args fut,
-    map (x_of e_inject PUser (meth_of k) args fut) (snd (dispatch builtins (c_reg c) (meth_of k))) =
+    map (x_of e_inject PUser (meth_of k) args fut) (snd (dispatch (bset c) (c_reg c) (meth_of k))) =
     map (fun p => x_of e_inject PUser (meth_of k) args fut (p_entry p)) (user_plan c n k args).
 Proof.
-  intros c n k args fut. unfold dispatch, user_plan, get_handler. rewrite builtin_name.
-  destruct (is_builtin_call k); destruct (aget (meth_of k) (features (c_reg c))); reflexivity.
+  intros c n k args fut. unfold dispatch, user_plan, get_handler.
+  destruct (mem_name (meth_of k) (bset c)); destruct (aget (meth_of k) (features (c_reg c))); reflexivity.
 Qed.
 
+Ltac known_isb c := match goal with |- context [isb c ?k0] => rewrite !(isb_known c k0 eq_refl) end.
+
 Theorem plan_actual : forall c w n k,
-    (if is_builtin_call k then [x_builtin k] else []) ++ map x_of_p (plan c w n k) = actual c w k.
+    (if isb c k then [x_builtin k] else []) ++ map x_of_p (plan c w n k) = actual c w k.
 Proof.
   intros c w n k. unfold actual, parts, user_part, cmd_part, builtin_ok.
-  destruct k; cbn [is_builtin_call andb negb app plan];
+  destruct k; try known_isb c; cbn [andb negb app plan];
     try (rewrite (user_plan_spec c n _ _ false); unfold user_plan;
          destruct (ws_effect _ _ w); cbn [negb app map];
          [destruct (aget _ (features (c_reg c))); reflexivity | reflexivity]).
@@ -376,15 +406,19 @@ Proof.
     rewrite (user_plan_spec c n _ _ false). unfold user_plan. cbn [bargs].
     destruct (inline e && raises c e); cbn [negb app map]; [reflexivity|].
     destruct (aget _ (features (c_reg c))); reflexivity.
-  - (* a method that is not a built-in *)
-    unfold dispatch. rewrite get_handler_other. cbn [meth_of].
-    destruct (aget (other_name nm) (features (c_reg c))); cbn [snd map]; [|reflexivity].
-    unfold x_of_p, p_fut, is_req. cbn. destruct req; reflexivity.
+  - (* any other method *)
+    destruct (isb c (COther req nm v)) eqn:Hb; cbn [ws_effect andb negb app].
+    + (* a built-in the protocol class adds *)
+      rewrite (user_plan_spec c n _ _ false). unfold user_plan. cbn [bargs].
+      destruct (aget _ (features (c_reg c))); reflexivity.
+    + unfold dispatch. rewrite (get_handler_other c _ _ Hb). cbn [meth_of].
+      destruct (aget (other_name nm) (features (c_reg c))); cbn [snd map]; [|reflexivity].
+      unfold x_of_p, p_fut, is_req. cbn. destruct req; reflexivity.
 Qed.
 
 Lemma msg_ok_actual : forall c w k, msg_ok c w k = true -> actual c w k = parts e_inject c k.
 Proof.
-  intros c w k H. unfold msg_ok in H. unfold actual. destruct (is_builtin_call k) eqn:Hb; cbn [negb orb andb] in *; [|reflexivity].
+  intros c w k H. unfold msg_ok in H. unfold actual. destruct (isb c k) eqn:Hb; cbn [negb orb andb] in *; [|reflexivity].
   destruct (builtin_ok c w k); cbn [negb orb] in *; [reflexivity|]. unfold parts. rewrite Hb.
   destruct (user_part e_inject c k); [|discriminate]. rewrite app_nil_r. reflexivity.
 Qed.
@@ -405,13 +439,13 @@ Proof.
   - unfold cmd_part. destruct k; try reflexivity. apply map_ext_in. intros e He. unfold x_of. f_equal.
     unfold exec_command in He. destruct (aget (Some cmd) (commands (c_reg c))) as [e'|] eqn:E; [|contradiction].
     destruct He as [<-|[]]. apply eqb_prop. exact (HC _ (aget_in _ _ _ E)).
-  - unfold user_part. assert (X : forall e, In e (snd (dispatch builtins (c_reg c) (meth_of k))) -> e_inject e = asked c e).
-    { intros e He. unfold dispatch, get_handler in He. destruct (mem_name (meth_of k) builtins); cbn [snd] in He.
+  - unfold user_part. assert (X : forall e, In e (snd (dispatch (bset c) (c_reg c) (meth_of k))) -> e_inject e = asked c e).
+    { intros e He. unfold dispatch, get_handler in He. destruct (mem_name (meth_of k) (bset c)); cbn [snd] in He.
       - destruct (aget (meth_of k) (features (c_reg c))) as [e'|] eqn:E; [|contradiction]. destruct He as [<-|[]].
         apply eqb_prop. exact (HF _ (aget_in _ _ _ E)).
       - destruct (aget (meth_of k) (features (c_reg c))) as [e'|] eqn:E; cbn [snd] in He; [|contradiction]. destruct He as [<-|[]].
         apply eqb_prop. exact (HF _ (aget_in _ _ _ E)). }
-    destruct (is_builtin_call k); apply map_ext_in; intros e He; unfold x_of; rewrite (X e He); reflexivity.
+    destruct (isb c k); apply map_ext_in; intros e He; unfold x_of; rewrite (X e He); reflexivity.
 Qed.
 
 Lemma all_ok_actual : forall c w k, inj_ok c = true -> msg_ok c w k = true -> actual c w k = expect c k.
@@ -433,7 +467,7 @@ Definition new_log (c : cfg) (s : st) (e : ev) : list hentry :=
   match e with
   | Recv k =>
       if w_shut (ws s) then []
-      else (if is_builtin_call k then [bent (nmsg s) k (ws s)] else []) ++
+      else (if isb c k then [bent (nmsg s) k (ws s)] else []) ++
            now_entries (spec_step c (ws s) k) (plan c (ws s) (nmsg s) k)
   | TaskStep t =>
       match nth_error (tasks s) t with
@@ -701,7 +735,8 @@ Proof.
   - destruct (exec_command (c_reg c) (Some cmd)) as [|e es]; [contradiction|].
     destruct H as [<-|H]; [reflexivity|]. destruct (inline e && raises c e); [contradiction|].
     destruct (aget _ (features (c_reg c))); cbn [In] in H; try contradiction. destruct H as [<-|[]]. reflexivity.
-  - destruct (aget _ (features (c_reg c))); cbn [In] in H; try contradiction. destruct H as [<-|[]]. reflexivity.
+  - destruct (isb c (COther req nm v)); destruct (aget _ (features (c_reg c))); cbn [In] in H; try contradiction;
+      destruct H as [<-|[]]; reflexivity.
 Qed.
 
 Lemma recv_tot : forall c k s q, w_shut (ws s) = false ->
@@ -725,9 +760,9 @@ Proof.
   assert (E4 : cnt (fun x : pinv => key_eqb q (xkey (nmsg s) (x_of_p x))) ps = cnt pk ps).
   { apply cnt_ext. intros x Hx. unfold pk, xkey, ikey, x_of_p, x_of. cbn [x_part]. rewrite (plan_msg _ _ _ _ _ Hx). reflexivity. }
   rewrite E4.
-  assert (E5 : cnt (fun h : hentry => key_eqb q (hkey h)) (if is_builtin_call k then [bent (nmsg s) k (ws s)] else []) =
-               cnt (fun x : xinv => key_eqb q (xkey (nmsg s) x)) (if is_builtin_call k then [x_builtin k] else [])).
-  { destruct (is_builtin_call k); [|reflexivity]. unfold cnt. cbn [filter].
+  assert (E5 : cnt (fun h : hentry => key_eqb q (hkey h)) (if isb c k then [bent (nmsg s) k (ws s)] else []) =
+               cnt (fun x : xinv => key_eqb q (xkey (nmsg s) x)) (if isb c k then [x_builtin k] else [])).
+  { destruct (isb c k); [|reflexivity]. unfold cnt. cbn [filter].
     change (hkey (bent (nmsg s) k (ws s))) with (nmsg s, PBuiltin). change (xkey (nmsg s) (x_builtin k)) with (nmsg s, PBuiltin).
     destruct (key_eqb q (nmsg s, PBuiltin)); reflexivity. }
   rewrite E5. lia.
@@ -826,7 +861,7 @@ Definition task_ok (c : cfg) (ks : list call) (tk : task) : Prop :=
 Definition job_ok (c : cfg) (ks : list call) (jb : job) : Prop :=
   from_plan c ks (mkP (j_inv jb) (j_cb jb)) /\ exec_site (i_entry (j_inv jb)) = Pool.
 Definition hentry_ok (c : cfg) (ks : list call) (h : hentry) : Prop :=
-  (exists n k w, nth_error ks n = Some k /\ is_builtin_call k = true /\ h = bent n k w) \/
+  (exists n k w, nth_error ks n = Some k /\ isb c k = true /\ h = bent n k w) \/
   (exists p w, from_plan c ks p /\ h = hent (tsite_of (exec_site (p_entry p))) (p_inv p) w).
 
 Definition M (c : cfg) (ks : list call) (s : st) : Prop :=
@@ -888,7 +923,7 @@ Proof.
         -- destruct p. apply FP. exact Hp1.
         -- unfold p_pool, p_entry in Hp2. destruct (exec_site (i_entry (p_inv p))); congruence.
     + apply Forall_app. split; [exact C|]. apply Forall_app. split.
-      * destruct (is_builtin_call k) eqn:Hb; constructor; [|constructor]. left. exists (nmsg s), k, (ws s). auto.
+      * destruct (isb c k) eqn:Hb; constructor; [|constructor]. left. exists (nmsg s), k, (ws s). auto.
       * unfold now_entries. apply Forall_forall. intros h Hh. apply in_map_iff in Hh. destruct Hh as (p & <- & Hp).
         apply filter_In in Hp. destruct Hp as [Hp1 Hp2]. right. exists p, (ws (recv c k s)). split; [apply FP, Hp1|].
         unfold p_inline, inline in Hp2. destruct (exec_site (p_entry p)); try discriminate. reflexivity.
@@ -966,8 +1001,8 @@ Theorem plan_facts : forall c w n k p, In p (plan c w n k) ->
     let x := p_inv p in
     i_msg x = n /\ registered c (i_part x) (i_meth x) = Some (i_entry x) /\
     match i_part x with
-    | PUser => i_meth x = meth_of k /\ i_args x = (if is_builtin_call k then bargs k else [ACall k]) /\
-               p_fut p = negb (is_builtin_call k) && is_req k
+    | PUser => i_meth x = meth_of k /\ i_args x = (if isb c k then bargs k else [ACall k]) /\
+               p_fut p = negb (isb c k) && is_req k
     | PCommand => (exists i cmd a, k = CExecCmd i cmd a /\ i_meth x = Some cmd /\ i_args x = [AVal a]) /\ p_fut p = true
     | PBuiltin => False
     end.
@@ -975,21 +1010,27 @@ Proof.
   intros c w n k p H. cbv zeta. split; [eapply plan_msg; exact H|]. unfold plan in H.
   destruct k as [i fs| |u ver txt|u ver txts|u|ad rm|v|i|i cmd a|tok|req nm v];
     try (destruct (ws_effect _ _ w); [|contradiction]; apply user_plan_facts in H; destruct H as (e & -> & H);
-         unfold registered, p_fut; cbn [p_inv p_cb i_part i_meth i_entry i_args is_builtin_call bargs negb andb];
+         known_isb c; unfold registered, p_fut; cbn [p_inv p_cb i_part i_meth i_entry i_args bargs negb andb];
          rewrite H; auto; fail).
   - destruct (exec_command (c_reg c) (Some cmd)) as [|e es] eqn:E; [contradiction|]. destruct H as [<-|H].
     + unfold registered, p_fut. cbn [p_inv p_cb i_part i_meth i_entry i_args].
       rewrite (exec_command_aget _ _ _ _ E). split; [reflexivity|]. split; [|reflexivity]. exists i, cmd, a. auto.
     + destruct (inline e && raises c e); [contradiction|]. apply user_plan_facts in H. destruct H as (e' & -> & H).
-      unfold registered, p_fut. cbn [p_inv p_cb i_part i_meth i_entry i_args is_builtin_call bargs negb andb]. rewrite H. auto.
-  - destruct (aget (other_name nm) (features (c_reg c))) as [e|] eqn:E; [|contradiction]. destruct H as [<-|[]].
-    unfold registered, p_fut, is_req. cbn [p_inv p_cb i_part i_meth i_entry i_args is_builtin_call negb andb req_id].
-    rewrite E. destruct req; auto.
+      known_isb c. unfold registered, p_fut. cbn [p_inv p_cb i_part i_meth i_entry i_args bargs negb andb]. rewrite H. auto.
+  - destruct (isb c (COther req nm v)) eqn:Hb.
+    + apply user_plan_facts in H. destruct H as (e & -> & H).
+      unfold registered, p_fut. cbn [p_inv p_cb i_part i_meth i_entry i_args bargs negb andb]. rewrite H. auto.
+    + destruct (aget (other_name nm) (features (c_reg c))) as [e|] eqn:E; [|contradiction]. destruct H as [<-|[]].
+      unfold registered, p_fut, is_req. cbn [p_inv p_cb i_part i_meth i_entry i_args negb andb req_id].
+      rewrite E. destruct req; auto.
 Qed.
 
 (* ------------------------------------------------------------------ built-in first *)
+Section Order.
+(* the names that have a built-in: FeatureManager._builtin_features of the protocol class *)
+Variable bs : list name.
 Definition needs_b (p : part) (m : name) : bool :=
-  match p with PBuiltin => false | PCommand => true | PUser => mem_name m builtins end.
+  match p with PBuiltin => false | PCommand => true | PUser => mem_name m bs end.
 Definition is_b (h : hentry) : bool := match h_part h with PBuiltin => true | _ => false end.
 Definition has_b (n : nat) (l : list hentry) : bool := existsb (fun h => Nat.eqb (h_msg h) n && is_b h) l.
 
@@ -1028,35 +1069,37 @@ Qed.
 Definition pend_ok (l : list hentry) (x : inv) : Prop :=
   needs_b (i_part x) (i_meth x) = true -> has_b (i_msg x) l = true.
 
-Definition O (s : st) : Prop :=
-  ordb [] (hlog s) = true /\ Forall (fun tk => pend_ok (hlog s) (t_inv tk)) (tasks s) /\
-  Forall (fun jb => pend_ok (hlog s) (j_inv jb)) (jobs s).
-
 Lemma pend_ok_app : forall l hs x, pend_ok l x -> pend_ok (l ++ hs) x.
 Proof. intros l hs x H Hn. rewrite has_b_app, (H Hn). reflexivity. Qed.
+End Order.
+
+Definition O (c : cfg) (s : st) : Prop :=
+  ordb (bset c) [] (hlog s) = true /\ Forall (fun tk => pend_ok (bset c) (hlog s) (t_inv tk)) (tasks s) /\
+  Forall (fun jb => pend_ok (bset c) (hlog s) (j_inv jb)) (jobs s).
+
 
 Lemma plan_pend : forall c w n k p l, In p (plan c w n k) ->
-    pend_ok (l ++ (if is_builtin_call k then [bent n k w] else [])) (p_inv p).
+    pend_ok (bset c) (l ++ (if isb c k then [bent n k w] else [])) (p_inv p).
 Proof.
   intros c w n k p l H Hn. destruct (plan_facts c w n k p H) as (Hm & _ & F). rewrite Hm.
-  destruct (is_builtin_call k) eqn:Hb.
+  destruct (isb c k) eqn:Hb.
   - rewrite has_b_app. unfold has_b at 2. cbn [existsb bent h_msg is_b h_part]. rewrite Nat.eqb_refl. cbn. apply orb_true_r.
   - destruct (i_part (p_inv p)) eqn:Hp; cbn [needs_b] in Hn; try discriminate.
-    + destruct F as (F1 & _). rewrite F1, builtin_name, Hb in Hn. discriminate.
-    + destruct F as ((i & cmd & a & -> & _) & _). discriminate.
+    + destruct F as (F1 & _). rewrite F1 in Hn. unfold isb in Hb. congruence.
+    + destruct F as ((i & cmd & a & -> & _) & _). rewrite (isb_known c (CExecCmd i cmd a) eq_refl) in Hb. discriminate.
 Qed.
 
-Lemma O_recv : forall c k s, O s -> O (recv c k s).
+Lemma O_recv : forall c k s, O c s -> O c (recv c k s).
 Proof.
   intros c k s (A & B & C). destruct (w_shut (ws s)) eqn:Hs.
   - rewrite recv_gated by exact Hs. repeat split; assumption.
   - destruct (recv_delivery c k s Hs) as (D1 & D2 & D3 & _ & _). destruct (mid_soft k s) as [S1 S2].
     set (ps := plan c (ws s) (nmsg s) k) in *.
-    set (bl := if is_builtin_call k then [bent (nmsg s) k (ws s)] else []) in *.
-    assert (PP : forall p, In p ps -> pend_ok (hlog s ++ bl) (p_inv p)) by (intros p Hp; subst bl; apply (plan_pend c (ws s) (nmsg s) k p (hlog s)); exact Hp).
+    set (bl := if isb c k then [bent (nmsg s) k (ws s)] else []) in *.
+    assert (PP : forall p, In p ps -> pend_ok (bset c) (hlog s ++ bl) (p_inv p)) by (intros p Hp; subst bl; apply (plan_pend c (ws s) (nmsg s) k p (hlog s)); exact Hp).
     unfold O. rewrite D1, D2, D3. repeat split.
     + rewrite ordb_app, A. cbn [andb app]. rewrite ordb_app. apply andb_true_iff. split.
-      * apply ordb_enough. intros h Hh Hn. subst bl. destruct (is_builtin_call k); [|contradiction].
+      * apply ordb_enough. intros h Hh Hn. subst bl. destruct (isb c k); [|contradiction].
         destruct Hh as [<-|[]]. discriminate.
       * apply ordb_enough. intros h Hh Hn. unfold now_entries in Hh. apply in_map_iff in Hh. destruct Hh as (p & <- & Hp).
         apply filter_In in Hp. apply (PP p (proj1 Hp)). exact Hn.
@@ -1070,7 +1113,7 @@ Proof.
         apply filter_In in Hp. cbn [j_inv]. rewrite app_assoc. apply pend_ok_app. apply PP. exact (proj1 Hp).
 Qed.
 
-Lemma O_step : forall c s e, O s -> O (step c s e).
+Lemma O_step : forall c s e, O c s -> O c (step c s e).
 Proof.
   intros c s e HO. destruct e as [k|t|t|j|j]; cbn [step].
   - apply O_recv. exact HO.
@@ -1080,7 +1123,7 @@ Proof.
     + repeat split; try assumption. unfold set_task_st. cbn [tasks set_tasks hlog]. apply Forall_upd_nth; [exact B|]. auto.
     + unfold O, set_task_st, invoke. cbn [tasks jobs hlog set_tasks set_hlog]. repeat split.
       * rewrite ordb_app, A. cbn [andb app ordb]. rewrite andb_true_r. cbn [h_part h_meth h_msg].
-        destruct (needs_b (i_part (t_inv tk)) (i_meth (t_inv tk))) eqn:Hn; [|reflexivity]. cbn [negb orb]. apply T. exact Hn.
+        destruct (needs_b (bset c) (i_part (t_inv tk)) (i_meth (t_inv tk))) eqn:Hn; [|reflexivity]. cbn [negb orb]. apply T. exact Hn.
       * apply Forall_upd_nth; [|auto]. eapply Forall_impl; [|exact B]. intros a Ha. apply pend_ok_app. exact Ha.
       * eapply Forall_impl; [|exact C]. intros a Ha. apply pend_ok_app. exact Ha.
   - unfold loop_cb. destruct (nth_error (tasks s) t) as [tk|] eqn:E; [|exact HO].
@@ -1093,7 +1136,7 @@ Proof.
     destruct (j_st jb); try (repeat split; assumption).
     unfold O, set_job_st, invoke. cbn [tasks jobs hlog set_jobs set_hlog]. repeat split.
     + rewrite ordb_app, A. cbn [andb app ordb]. rewrite andb_true_r. cbn [h_part h_meth h_msg].
-      destruct (needs_b (i_part (j_inv jb)) (i_meth (j_inv jb))) eqn:Hn; [|reflexivity]. cbn [negb orb]. apply T. exact Hn.
+      destruct (needs_b (bset c) (i_part (j_inv jb)) (i_meth (j_inv jb))) eqn:Hn; [|reflexivity]. cbn [negb orb]. apply T. exact Hn.
     + eapply Forall_impl; [|exact B]. intros a Ha. apply pend_ok_app. exact Ha.
     + apply Forall_upd_nth; [|auto]. eapply Forall_impl; [|exact C]. intros a Ha. apply pend_ok_app. exact Ha.
   - unfold job_finish. destruct (nth_error (jobs s) j) as [jb|] eqn:E; [|exact HO].
@@ -1103,9 +1146,9 @@ Proof.
     unfold set_job_st. cbn [jobs set_jobs hlog]. apply Forall_upd_nth; [exact C|]. auto.
 Qed.
 
-Theorem O_run : forall c evs, O (run c evs).
+Theorem O_run : forall c evs, O c (run c evs).
 Proof.
-  intros c evs. unfold run. assert (H : O init) by (repeat split; constructor).
+  intros c evs. unfold run. assert (H : O c init) by (repeat split; constructor).
   revert H. generalize init. induction evs as [|e evs IH]; intros s H; [exact H|]. cbn [fold_left]. apply IH, O_step, H.
 Qed.
 
@@ -1337,7 +1380,7 @@ Proof.
   assert (KO : forall f s', K s' -> K (add_out f s')) by (intros f s' H'; kframe H').
   assert (KW : forall w s', K s' -> K (set_ws w s')) by (intros w s' H'; kframe H').
   destruct (req_id k) as [i|].
-  - unfold handle_request. destruct (get_handler builtins (c_reg c) (meth_of k)) as [|e|].
+  - unfold handle_request. destruct (get_handler (bset c) (c_reg c) (meth_of k)) as [|e|].
     + destruct k; try exact H0;
         try (cbv zeta; unfold builtin_body; match goal with |- context [ws_effect ?a ?b ?c] => destruct (ws_effect a b c) end;
              [apply KO, K_chain, KW; try apply K_cancel_all; apply KB | apply KO, KB]).
@@ -1348,7 +1391,7 @@ Proof.
     + pose proof (K_execute_request c i (mkInv n (meth_of k) PUser e [ACall k]) s0 H0) as X.
       destruct (execute_request c i _ s0) as [s1 x]. cbn [fst] in X. cbv beta iota. destruct x; [apply KO, X|exact X].
     + apply KO, H0.
-  - unfold handle_notification. destruct (get_handler builtins (c_reg c) (meth_of k)) as [|e|].
+  - unfold handle_notification. destruct (get_handler (bset c) (c_reg c) (meth_of k)) as [|e|].
     + destruct k; try exact H0;
         try (cbv zeta; unfold builtin_body; match goal with |- context [ws_effect ?a ?b ?c] => destruct (ws_effect a b c) end;
              [apply K_chain, KW; try apply K_cancel_all; apply KB | apply KB]).
@@ -1388,9 +1431,9 @@ Qed.
 
 (* ------------------------------------------------------------------ consequences *)
 (* at most once: a message owes each of its (at most three) parts once *)
-Lemma dispatch_users_shape : forall r m, snd (dispatch builtins r m) = [] \/ exists e, snd (dispatch builtins r m) = [e].
+Lemma dispatch_users_shape : forall bs r m, snd (dispatch bs r m) = [] \/ exists e, snd (dispatch bs r m) = [e].
 Proof.
-  intros r m. unfold dispatch. destruct (get_handler builtins r m); cbn [snd]; eauto.
+  intros bs r m. unfold dispatch. destruct (get_handler bs r m); cbn [snd]; eauto.
   destruct (aget m (features r)); eauto.
 Qed.
 
@@ -1409,16 +1452,16 @@ Proof.
     destruct (Nat.eqb m n); destruct p; cbn; lia. }
   unfold actual, parts.
   assert (U : forall l, l = user_part e_inject c k -> (forall x, In x l -> x_part x = PUser) /\ (length l <= 1)%nat).
-  { intros l ->. unfold user_part. destruct (dispatch_users_shape (c_reg c) (meth_of k)) as [->|[e ->]];
-      destruct (is_builtin_call k); cbn; split; try lia; intros x [<-|[]]; reflexivity. }
+  { intros l ->. unfold user_part. destruct (dispatch_users_shape (bset c) (c_reg c) (meth_of k)) as [->|[e ->]];
+      destruct (isb c k); cbn; split; try lia; intros x [<-|[]]; reflexivity. }
   assert (Cm : forall l, l = cmd_part e_inject c k -> (forall x, In x l -> x_part x = PCommand) /\ (length l <= 1)%nat).
   { intros l ->. unfold cmd_part. destruct k; cbn; try (split; [intros x []|lia]).
     destruct (exec_command_shape (c_reg c) (Some cmd)) as [->|[e ->]]; cbn; split; try lia; intros x [<-|[]]; reflexivity. }
   destruct (U _ eq_refl) as [U1 U2]. destruct (Cm _ eq_refl) as [C1 C2].
-  destruct (is_builtin_call k && negb (builtin_ok c w k)).
+  destruct (isb c k && negb (builtin_ok c w k)).
   - replace (x_builtin k :: cmd_part e_inject c k) with ([x_builtin k] ++ cmd_part e_inject c k ++ []) by (rewrite app_nil_r; reflexivity).
     apply E; auto; cbn; try lia; try (intros ? []; fail); intros ? [<-|[]]; reflexivity.
-  - apply E; auto; destruct (is_builtin_call k); cbn; try lia; try (intros ? []; fail); intros ? [<-|[]]; reflexivity.
+  - apply E; auto; destruct (isb c k); cbn; try lia; try (intros ? []; fail); intros ? [<-|[]]; reflexivity.
 Qed.
 
 Lemma owes_other_msg : forall c w n k m p, m <> n -> owes c w n k (m, p) = 0%nat.
@@ -1473,14 +1516,14 @@ Proof.
 Qed.
 
 (* which parts of a message answer a request (and can therefore be cancelled) *)
-Definition fut_part (k : call) (p : part) : bool :=
+Definition fut_part (c : cfg) (k : call) (p : part) : bool :=
   match p with
   | PCommand => true
-  | PUser => negb (is_builtin_call k) && is_req k
+  | PUser => negb (isb c k) && is_req k
   | PBuiltin => false
   end.
 
-Lemma no_req_future : forall c ks n k p x cb, nth_error ks n = Some k -> fut_part k p = false ->
+Lemma no_req_future : forall c ks n k p x cb, nth_error ks n = Some k -> fut_part c k p = false ->
     from_plan c ks (mkP x cb) -> ikey x = (n, p) -> req_cb cb = false.
 Proof.
   intros c ks n k p x cb Hk Hf (n' & k' & w & Hk' & Hin) Hkey.
@@ -1496,7 +1539,7 @@ Proof.
   apply Nat.eqb_eq in E1. subst m. f_equal. destruct p, p'; try discriminate; reflexivity.
 Qed.
 
-Lemma no_req_tasks : forall c ks n k p l, nth_error ks n = Some k -> fut_part k p = false ->
+Lemma no_req_tasks : forall c ks n k p l, nth_error ks n = Some k -> fut_part c k p = false ->
     Forall (task_ok c ks) l -> cnt (t_key_req (n, p)) l = 0%nat.
 Proof.
   intros c ks n k p l Hk Hf F. unfold cnt. induction F as [|tk l H1 F IH]; [reflexivity|]. cbn [filter].
@@ -1504,7 +1547,7 @@ Proof.
   rewrite (no_req_future c _ n k p _ _ Hk Hf (proj1 H1) (key_eqb_eq _ _ E)). exact IH.
 Qed.
 
-Lemma no_req_jobs : forall c ks n k p l, nth_error ks n = Some k -> fut_part k p = false ->
+Lemma no_req_jobs : forall c ks n k p l, nth_error ks n = Some k -> fut_part c k p = false ->
     Forall (job_ok c ks) l -> cnt (j_key_req (n, p)) l = 0%nat.
 Proof.
   intros c ks n k p l Hk Hf F. unfold cnt. induction F as [|jb l H1 F IH]; [reflexivity|]. cbn [filter].
@@ -1516,7 +1559,7 @@ Qed.
    notification handler - has run exactly as often as the reference says once the loop and the
    pool are idle, whatever the schedule was *)
 Theorem exactly_once_at_quiescence : forall c evs n k p,
-    nth_error (calls_of evs) n = Some k -> fut_part k p = false -> quiescent (run c evs) = true ->
+    nth_error (calls_of evs) n = Some k -> fut_part c k p = false -> quiescent (run c evs) = true ->
     started (n, p) (run c evs) = owed c w0 0 (calls_of evs) (n, p).
 Proof.
   intros c evs n k p Hk Hf Hq. pose proof (balance c evs (n, p)) as B. unfold tot in B.
@@ -1547,7 +1590,7 @@ Proof. intros c ks n k p H. exact (owed_nth c ks w0 0 n k p H). Qed.
 Definition proj_h (h : hentry) := (h_part h, h_meth h, h_fid h, h_site h, h_inj h, h_args h).
 Definition proj_x (x : xinv) := (x_part x, x_meth x, x_fid x, x_site x, x_inj x, x_args x).
 
-Lemma in_actual_builtin : forall c w k, is_builtin_call k = true -> In (x_builtin k) (actual c w k).
+Lemma in_actual_builtin : forall c w k, isb c k = true -> In (x_builtin k) (actual c w k).
 Proof.
   intros c w k H. unfold actual, parts. rewrite H. destruct (negb (builtin_ok c w k)); cbn; auto.
 Qed.
@@ -1601,11 +1644,11 @@ Proof.
   destruct (M_run c evs) as (M1 & M2 & _). fold s in M1, M2.
   destruct e as [k|t|t|j|j]; cbn [new_log next_ws].
   - destruct (w_shut (ws s)); [split; constructor|]. split; apply Forall_app; split.
-    + destruct (is_builtin_call k); constructor; [reflexivity|constructor].
+    + destruct (isb c k); constructor; [reflexivity|constructor].
     + unfold now_entries. apply Forall_forall. intros h Hh. apply in_map_iff in Hh. destruct Hh as (p & <- & Hp).
       apply filter_In in Hp. destruct (plan_facts c _ _ _ _ (proj1 Hp)) as (_ & _ & F).
       unfold is_b. cbn [hent h_part h_snap]. destruct (i_part (p_inv p)); [contradiction|reflexivity|reflexivity].
-    + destruct (is_builtin_call k); constructor; [cbn; congruence|constructor].
+    + destruct (isb c k); constructor; [cbn; congruence|constructor].
     + unfold now_entries. apply Forall_forall. intros h Hh. apply in_map_iff in Hh. destruct Hh as (p & <- & Hp).
       apply filter_In in Hp. rewrite <- N. exact (plan_msg _ _ _ _ _ (proj1 Hp)).
   - destruct (nth_error (tasks s) t) as [tk|] eqn:E; [|split; constructor].
@@ -1658,17 +1701,18 @@ Qed.
 (* a built-in request (initialize, shutdown) is answered with the built-in's own result, inside the
    delivery, whatever user feature is chained after it and whatever that feature does *)
 Theorem builtin_reply_kept : forall c k i s, w_shut (ws s) = false ->
-    is_builtin_call k = true -> is_exec k = false -> req_id k = Some i -> builtin_ok c (ws s) k = true ->
+    isb c k = true -> is_exec k = false -> req_id k = Some i -> builtin_ok c (ws s) k = true ->
     out (recv c k s) = out (mid k s) ++ [OResult i (result_of k)].
 Proof.
-  intros c k i s Hs Hb He Hi Hok. unfold recv. rewrite Hs, Hi. unfold handle_request. rewrite (get_handler_builtin _ _ Hb).
-  destruct k as [i' fs| | | | | | |i'| | |]; try discriminate; cbn [req_id] in Hi; inversion Hi; subst; cbv zeta; unfold builtin_body; cbv beta iota.
+  intros c k i s Hs Hb He Hi Hok. unfold recv. rewrite Hs, Hi. unfold handle_request. rewrite (get_handler_builtin c _ _ Hb).
+  destruct k as [i' fs| | | | | | |i'| | |q nm v]; try discriminate; cbn [req_id] in Hi; inversion Hi; subst; cbv zeta; unfold builtin_body; cbv beta iota.
   - change (ws (log_builtin (nmsg s) (CInitialize i fs) [ACall (CInitialize i fs)] (set_nmsg (S (nmsg s)) s))) with (ws s).
     unfold builtin_ok in Hok. destruct (ws_effect (c_tokens c) (CInitialize i fs) (ws s)); [|discriminate].
     unfold add_out at 1. cbn [out set_out]. rewrite out_chain. reflexivity.
   - destruct (cancel_all_fields (log_builtin (nmsg s) (CShutdown i) [ACall (CShutdown i)] (set_nmsg (S (nmsg s)) s))) as (_ & C2 & _).
     rewrite C2. change (ws (log_builtin (nmsg s) (CShutdown i) [ACall (CShutdown i)] (set_nmsg (S (nmsg s)) s))) with (ws s).
     cbn [ws_effect]. unfold add_out at 1. cbn [out set_out]. rewrite out_chain. reflexivity.
+  - cbn [ws_effect mid]. unfold add_out at 1. cbn [out set_out]. rewrite out_chain. reflexivity.
 Qed.
 
 (* no handler: nothing is invoked; a request is answered -32601, a notification is dropped *)
@@ -1680,7 +1724,7 @@ Theorem no_handler_nothing : forall c k s, w_shut (ws s) = false -> has_handler 
 Proof.
   intros c k s Hs Hh. unfold recv. rewrite Hs. unfold has_handler, dispatch in Hh.
   unfold handle_request, handle_notification.
-  destruct (get_handler builtins (c_reg c) (meth_of k)); cbn [fst] in Hh; try discriminate. reflexivity.
+  destruct (get_handler (bset c) (c_reg c) (meth_of k)); cbn [fst] in Hh; try discriminate. reflexivity.
 Qed.
 
 Corollary no_handler_log : forall c k s, w_shut (ws s) = false -> has_handler c k = false ->
@@ -1743,10 +1787,10 @@ Qed.
 
 (* order, at most once, the balance, and exactly once at quiescence - for every schedule *)
 Theorem builtin_then_user_once : forall c evs,
-    ordb [] (hlog (run c evs)) = true /\
+    ordb (bset c) [] (hlog (run c evs)) = true /\
     (forall q, (started q (run c evs) <= 1)%nat) /\
     (forall q, tot q (run c evs) = owed c w0 0 (calls_of evs) q) /\
-    (forall n k p, nth_error (calls_of evs) n = Some k -> fut_part k p = false -> quiescent (run c evs) = true ->
+    (forall n k p, nth_error (calls_of evs) n = Some k -> fut_part c k p = false -> quiescent (run c evs) = true ->
                    started (n, p) (run c evs) = owes c (spec_ws c (firstn n (calls_of evs))) n k (n, p)).
 Proof.
   intros c evs. split; [exact (proj1 (O_run c evs))|]. split; [intro q; apply at_most_once|].
@@ -1756,7 +1800,7 @@ Qed.
 
 Theorem literal_inside_guard : forall c evs n k p,
     all_ok c w0 (calls_of evs) = true -> nth_error (calls_of evs) n = Some k ->
-    delivered (spec_ws c (firstn n (calls_of evs))) = true -> fut_part k p = false ->
+    delivered (spec_ws c (firstn n (calls_of evs))) = true -> fut_part c k p = false ->
     quiescent (run c evs) = true -> started (n, p) (run c evs) = promised c k p.
 Proof.
   intros c evs n k p G Hk Hd Hf Hq. destruct (builtin_then_user_once c evs) as (_ & _ & _ & E).
@@ -1778,7 +1822,7 @@ Theorem delivery_exact : forall c k s, w_shut (ws s) = false ->
 Proof.
   intros c k s Hs. cbn [new_log]. rewrite Hs. rewrite <- (plan_actual c (ws s) (nmsg s) k).
   rewrite filter_app, !map_app, filter_now_plan. f_equal.
-  - destruct (is_builtin_call k); reflexivity.
+  - destruct (isb c k); reflexivity.
   - unfold now_entries. rewrite !map_map. apply map_ext_in. intros p Hp. apply filter_In in Hp. destruct Hp as [_ Hp].
     unfold proj_h, proj_x, x_of_p, x_of, hent. cbn. unfold p_inline, inline in Hp.
     destruct (exec_site (p_entry p)); try discriminate. reflexivity.
@@ -1792,36 +1836,39 @@ Qed.
 Lemma register_keeps : forall r b f r' f' res k n e,
     Features.step r (register_op b f) = (r', f', res) -> aget n (reg_table k r) = Some e ->
     aget n (reg_table k r') = Some e /\
-    (res = Ok -> (a_kind b, a_name b) <> (k, n) /\ f_reg f' = Some (a_kind b, a_name b)).
+    (res = Ok -> f_reg f' = Some (a_kind b, a_name b) /\ f_id f' = f_id f /\
+                 aget (a_name b) (reg_table (a_kind b) r') = Some (wrap_with_server f')).
 Proof.
   intros r b f r' f' res k n e H He. destruct res as [|er].
-  - pose proof (register_ok_entry _ _ _ _ _ H) as [Hf _]. cbv zeta in Hf. unfold register_op in H.
+  - pose proof (register_ok_entry _ _ _ _ _ H) as [Hf Hent]. cbv zeta in Hf, Hent. unfold register_op in H.
     destruct (a_kind b) eqn:Kb.
     + destruct (accept_feature_frame _ _ _ _ _ _ H) as (Hn & _ & Hm & _ & HC & _). split.
       * destruct k; cbn [reg_table] in *; [|rewrite HC; exact He].
         rewrite Hm; [exact He|]. intro; subst n. congruence.
-      * intros _. split; [|subst f'; reflexivity]. intro E. inversion E; subst. cbn [reg_table] in He. congruence.
+      * intros _. subst f'. repeat split. exact Hent.
     + destruct (accept_command_frame _ _ _ _ _ H) as (Hn & _ & Hm & HF & _). split.
       * destruct k; cbn [reg_table] in *; [rewrite HF; exact He|].
         rewrite Hm; [exact He|]. intro; subst n. congruence.
-      * intros _. split; [|subst f'; reflexivity]. intro E. inversion E; subst. cbn [reg_table] in He. congruence.
+      * intros _. subst f'. repeat split. exact Hent.
   - apply reject_is_identity in H. subst r'. split; [exact He|discriminate].
 Qed.
 
+(* thread() of a function object leaves the callables of every OTHER function object alone, in both
+   tables, whatever their names: the marker lands on exactly the registration it decorates *)
 Lemma thread_keeps : forall r f r' f' res k n e,
-    Features.step r (OpThread f) = (r', f', res) -> f_reg f <> Some (k, n) -> aget n (reg_table k r) = Some e ->
-    aget n (reg_table k r') = Some e.
+    Features.step r (OpThread f) = (r', f', res) ->
+    (forall t m e0, f_reg f = Some (t, m) -> aget m (reg_table t r) = Some e0 -> e_fid e0 = f_id f) ->
+    e_fid e <> f_id f -> aget n (reg_table k r) = Some e -> aget n (reg_table k r') = Some e.
 Proof.
-  intros r f r' f' res k n e H Hr He. destruct res as [|er].
-  - destruct (accept_thread_frame _ _ _ _ H) as (_ & _ & _ & _ & _ & HF & HC).
-    destruct k; cbn [reg_table] in *; [rewrite HF|rewrite HC]; assumption.
+  intros r f r' f' res k n e H Hr Hne He. destruct res as [|er].
+  - exact (accept_thread_frame_other _ _ _ _ H Hr k n e He Hne).
   - apply reject_is_identity in H. subst r'. exact He.
 Qed.
 
-Lemma attempt_keeps : forall r b k n e, fresh (a_fn b) = true -> aget n (reg_table k r) = Some e ->
-    aget n (reg_table k (last_reg r (attempt_trace r b))) = Some e.
+Lemma attempt_keeps : forall r b k n e, fresh (a_fn b) = true -> e_fid e <> f_id (a_fn b) ->
+    aget n (reg_table k r) = Some e -> aget n (reg_table k (last_reg r (attempt_trace r b))) = Some e.
 Proof.
-  intros r b k n e Hf He. destruct (fresh_func_ok _ Hf) as (_ & _ & Hrg).
+  intros r b k n e Hf Hne He. destruct (fresh_func_ok _ Hf) as (_ & _ & Hrg).
   unfold attempt_trace. destruct (a_thr b).
   - destruct (register r b (a_fn b)) as [[r1 f1] res1] eqn:E. rewrite register_step in E.
     unfold last_reg. cbn [last fst]. exact (proj1 (register_keeps _ _ _ _ _ _ _ _ _ E He)).
@@ -1829,11 +1876,12 @@ Proof.
     destruct (register_keeps _ _ _ _ _ _ _ _ _ E He) as [H1 H2].
     destruct res1 as [|er]; [|unfold last_reg; cbn [last fst]; exact H1].
     destruct (thread r1 f1) as [[r2 f2] res2] eqn:E2. unfold last_reg. cbn [last fst].
-    destruct (H2 eq_refl) as [Hne Hreg].
-    apply (thread_keeps r1 f1 r2 f2 res2 k n e E2); [|exact H1]. rewrite Hreg. congruence.
+    destruct (H2 eq_refl) as (Hreg & Hid & Hent).
+    apply (thread_keeps r1 f1 r2 f2 res2 k n e E2); [| rewrite Hid; exact Hne | exact H1].
+    intros t m e0 Ht Hm. rewrite Hreg in Ht. inversion Ht; subst t m. rewrite Hent in Hm. inversion Hm. apply wrap_fid.
   - destruct (thread r (a_fn b)) as [[r1 f1] res1] eqn:E.
     assert (H1 : aget n (reg_table k r1) = Some e).
-    { apply (thread_keeps r (a_fn b) r1 f1 res1 k n e E); [rewrite Hrg; discriminate|exact He]. }
+    { apply (thread_keeps r (a_fn b) r1 f1 res1 k n e E); [|exact Hne|exact He]. intros t m e0 Ht. rewrite Hrg in Ht. discriminate. }
     destruct res1 as [|er]; [|unfold last_reg; cbn [last fst]; exact H1].
     destruct (register r1 b f1) as [[r2 f2] res2] eqn:E2. rewrite register_step in E2.
     unfold last_reg. cbn [last fst]. exact (proj1 (register_keeps _ _ _ _ _ _ _ _ _ E2 H1)).
@@ -1852,23 +1900,26 @@ Proof.
   cbn [app run_attempts]. rewrite !last_reg_app. apply IH.
 Qed.
 
-Lemma run_keeps : forall l r k n e, Forall (fun b => fresh (a_fn b) = true) l -> aget n (reg_table k r) = Some e ->
+Lemma run_keeps : forall l r k n e,
+    Forall (fun b => fresh (a_fn b) = true /\ f_id (a_fn b) <> e_fid e) l -> aget n (reg_table k r) = Some e ->
     aget n (reg_table k (last_reg r (run_attempts r l))) = Some e.
 Proof.
-  induction l as [|b l IH]; intros r k n e F He; [exact He|]. inversion F; subst.
-  cbn [run_attempts]. rewrite last_reg_app. apply IH; [assumption|]. apply attempt_keeps; assumption.
+  induction l as [|b l IH]; intros r k n e F He; [exact He|]. inversion F as [|? ? [Hf Hid] F']; subst.
+  cbn [run_attempts]. rewrite last_reg_app. apply IH; [assumption|]. apply attempt_keeps; auto.
 Qed.
 
 Theorem shapes_in_context : forall l1 a l2,
     let r1 := registry_of l1 in
-    fresh (a_fn a) = true -> Forall (fun b => fresh (a_fn b) = true) l2 -> accepted (attempt_trace r1 a) = true ->
+    fresh (a_fn a) = true -> Forall (fun b => fresh (a_fn b) = true /\ f_id (a_fn b) <> f_id (a_fn a)) l2 ->
+    accepted (attempt_trace r1 a) = true ->
     exists e, aget (a_name a) (reg_table (a_kind a) (registry_of (l1 ++ a :: l2))) = Some e /\
               e_fid e = f_id (a_fn a) /\ e_inject e = asks_server (f_params (a_fn a)) /\
               (exec_site e = Pool <-> a_thr a <> TNone) /\ (exec_site e = LoopTask <-> f_async (a_fn a) = true).
 Proof.
   intros l1 a l2 r1 Hf F Hacc. destruct (shape_general r1 a Hf Hacc) as (e & He & P).
   exists e. split; [|exact P]. unfold registry_of. rewrite run_attempts_last_app. fold (registry_of l1). fold r1.
-  cbn [run_attempts]. rewrite last_reg_app. apply run_keeps; assumption.
+  cbn [run_attempts]. rewrite last_reg_app. apply run_keeps; [|assumption].
+  destruct P as (Pid & _). rewrite Pid. exact F.
 Qed.
 
 (* ------------------------------------------------------------------ injection, for every signature *)
@@ -1904,7 +1955,7 @@ Proof. exists (mkG (First false AServer) false). repeat split. Qed.
    the registered callable binds the server iff has_ls_g g *)
 Theorem shapes_in_context_g : forall l1 a l2 g,
     f_params (a_fn a) = see g ->
-    fresh (a_fn a) = true -> Forall (fun b => fresh (a_fn b) = true) l2 ->
+    fresh (a_fn a) = true -> Forall (fun b => fresh (a_fn b) = true /\ f_id (a_fn b) <> f_id (a_fn a)) l2 ->
     accepted (attempt_trace (registry_of l1) a) = true ->
     exists e, aget (a_name a) (reg_table (a_kind a) (registry_of (l1 ++ a :: l2))) = Some e /\
               e_fid e = f_id (a_fn a) /\ e_inject e = has_ls_g g /\
